@@ -148,9 +148,19 @@ def gridOn (sp : Int → Rat) (ts : List Int) : Bool :=
   let l := (ts.mergeSort (fun a b => decide (a ≤ b))).eraseDups
   l.all (fun t => decide (0 < sp t)) && (l.zip l.tail).all (fun ab => decide (sp ab.1 < sp ab.2))
 
+/-- the custody abstraction is claimed for pools whose sqrt prices (current and of every tick in use) are at least 10^-9:
+    below that the 18-decimal price grid has a handful of significant digits left (it stops being strictly increasing
+    near 10^-18) and the amount formulas lose whole coins (known finding C02-LOWPRICE) -/
+def priceFloor : Rat := 1 / 1000000000
+
+def applicable (sp : Int → Rat) (ts : List Int) (ps : List Rat) : Bool :=
+  let m := minPrice sp ts ps
+  decide (priceFloor ≤ m) && (ts.all fun t => decide (0 < sp t)) && ps.all (fun p => decide (0 < p))
+
 /-- executable form of `Inv` (without reachability of the book, which `CLAccrual.invOn` covers with the same sums) -/
 def invOnC (s : St) : Bool :=
   (livePos s.book.pos).isEmpty ||
+  !(applicable s.sp ((s.book.pos.filter (fun x => x.liq != 0)).foldr (fun x acc => x.lo :: x.hi :: acc) []) [s.P]) ||
   (decide (0 < s.P) && priceInTickB s.sp s.P s.book.tick && decide (0 ≤ s.slack)
    && gridOn s.sp ((s.book.pos.foldr (fun x acc => x.lo :: x.hi :: acc) []) ++ [s.book.tick, s.book.tick + 1])
    && decide (owedBase s ≤ s.base + s.slack) && decide (owedQuote s ≤ s.quote + s.slack))
@@ -193,7 +203,9 @@ def lockstepC (before after : CL.St) (pool : Nat) (evs : List Ev) (sp : Int → 
       let mp := minPrice a.sp ts [a.P, b.P]
       (decide (0 ≤ rb) && decide (0 ≤ rq) && decide (rb < 1) && decide (rq < 1) && obsEqC ts a'' b,
        decide (m ≤ errTol mp), a'.slack)
-    | none => (false, true, 0)
+    | none =>
+      -- outside the claimed price regime a failing guard is not reported
+      (!(applicable a.sp ts ((if (livePos a.book.pos).isEmpty then [] else [a.P]) ++ (if (livePos b.book.pos).isEmpty then [] else [b.P]))), true, 0)
   | none, none => (true, true, 0)
   | _, _ => (evs.isEmpty, true, 0)
 
